@@ -123,7 +123,11 @@ func (C11) Generate(r *core.Rand, tier string, idx int) *core.Scenario {
 			if r.P(2, 3) { // authenticate first (well-formed), so that the garbage also meets the later states
 				sc.Actions = append(sc.Actions, core.Action{K: "g", A: []int{2, r.Intn(1000), 0, 0, 0, 0, 0, 0}})
 				if r.P(2, 3) {
-					sc.Actions = append(sc.Actions, core.Action{K: "g", A: []int{4, r.Intn(4) * 2, 0, 0, 0, 0, 0, 0}})
+					sel := 4 // SELECT of some name
+					if r.P(1, 2) {
+						sel = 32 // SELECT / EXAMINE of a mailbox that holds messages
+					}
+					sc.Actions = append(sc.Actions, core.Action{K: "g", A: []int{sel, r.Intn(4) * 2, 0, 0, 0, 0, 0, 0}})
 				}
 			}
 		}
